@@ -170,6 +170,13 @@ def AND(*args) -> sp.Basic:
         return TRUE_T
     if len(uniq) == 1:
         return uniq[0]
+    # not isnan(x) and not isinf(x) is isfinite(x)
+    for x in list(uniq):
+        if fname(x) == "notnull":
+            twin = F_("not_")(F_("isinf")(x.args[0]))
+            if twin in uniq:
+                uniq = [u for u in uniq if u not in (x, twin)] + [F_("isfinite")(x.args[0])]
+                return AND(*uniq)
     return F_("and_")(*_sorted_args(uniq))
 
 
@@ -215,6 +222,11 @@ def NOT(a) -> sp.Basic:
             return op("notnull", a.args[0])
         if n == "notnull":
             return op("isnull", a.args[0])
+        if n == "or_" and len(a.args) == 2:
+            # not (isnan(x) or isinf(x)) is isfinite(x)
+            k = {fname(x): x.args for x in a.args}
+            if set(k) == {"isnull", "isinf"} and k["isnull"] == k["isinf"]:
+                return op("isfinite", k["isnull"][0])
     return op("not_", a)
 
 
